@@ -754,6 +754,30 @@ pub fn run_c17(o: &Opts) -> i32 {
     drop(emit);
     req.flush().unwrap(); aux.flush().unwrap();
     crate::util::write_json(&format!("{}/stats.json", o.out), &json!({"total": total, "quantities": qdims.len(), "dimensionalities": all_dims.len(), "samples": samples, "quantity_dims": qtable}));
+    // a second, small database in the same process and thread, after the bundled one has answered the same
+    // questions: the answers are about the database asked (its quantity names, its categories)
+    {
+        use rink_core::output::QueryReply;
+        let mut big = rink_core::simple_context().expect("bundled context");
+        let mut small = rink_core::Context::new();
+        let text = "m !meter\ns !second\n!category wsb \"Workshop\"\nbanana 2 m\n!endcategory\n!category wsa \"Workshop\"\napple 3 m\ncherry 5 m\n!endcategory\n!category orchard \"Orchard\"\nplum 7 m\n!endcategory\ndamson 11 m\n\
+                    distance ? m\nduration ? s\npace ? duration / distance\nquickness ? distance / duration\nsurge ? quickness / duration\n";
+        let load = small.load_definitions(text);
+        let mut out = vec![];
+        for q in ["factorize m / s", "factorize m / s^2", "units for m", "factorize s / m", "units for m / s"] {
+            let first = match rink_core::eval(&mut big, q) { Ok(QueryReply::Factorize(f)) => f.factorizations.len() as i64, Ok(QueryReply::UnitsFor(u)) => u.units.len() as i64, _ => -1 };
+            let rep = rink_core::eval(&mut small, q);
+            let v = match rep {
+                Ok(QueryReply::Factorize(f)) => json!({"q": q, "kind": "factorize", "bundled_first": first, "names": f.factorizations.iter().map(|x| x.units.keys().map(|k| k.to_string()).collect::<Vec<_>>()).collect::<Vec<_>>()}),
+                Ok(QueryReply::UnitsFor(u)) => json!({"q": q, "kind": "unitsfor", "bundled_first": first, "groups": u.units.iter().map(|g| json!({"category": g.category, "units": g.units})).collect::<Vec<_>>()}),
+                Ok(_) => json!({"q": q, "kind": "other"}),
+                Err(e) => json!({"q": q, "kind": "error", "text": format!("{}", e)}),
+            };
+            out.push(v);
+        }
+        crate::util::write_json(&format!("{}/twodb.json", o.out), &json!({"load": format!("{:?}", load), "quantities": ["distance", "duration", "pace", "quickness", "surge"],
+            "category_ids": {"Workshop": 2, "Orchard": 1}, "units": {"banana": "Workshop", "apple": "Workshop", "cherry": "Workshop", "plum": "Orchard", "damson": null, "meter": null}, "answers": out}));
+    }
     0
 }
 
